@@ -457,7 +457,8 @@ static void gen_default_appcfg(vh_rng_t *rng)
   app_cfg.srv_cfg[0] = 0;
   snprintf(app_cfg.hosts_content, sizeof(app_cfg.hosts_content),
            "127.0.0.1 localhost\n10.1.2.3 hostfile.example.com hf\nfd5e::7 hostfile6.example.com hf6\n"
-           "10.1.2.4 dual.example.com dual\n10.1.2.5 dual.example.com\nfd5e::8 dual.example.com\nfd5e::9 sixfirst.example.com\n10.1.2.6 sixfirst.example.com\n");
+           "10.1.2.4 dual.example.com dual\n10.1.2.5 dual.example.com\nfd5e::8 dual.example.com\nfd5e::9 sixfirst.example.com\n10.1.2.6 sixfirst.example.com\n"
+           "2001:db8:85a3:8d3:1319:8a2e:370:7348 longsix.example.com l6\n::ffff:203.0.113.77 mapped.example.com\n");
   (void)rng;
 }
 
